@@ -198,6 +198,35 @@ def table_config(rnd):
     return steps, m.tab, texts
 
 
+EDGE_PRECS = [1, 2, 3, 19, 20, 21, 109, 110, 111, 199, 200, 201, 255, 256, 32767, 32768, 65535, 65536, (1 << 24) - 1, 1 << 24, (1 << 29) - 1, 1 << 29, (1 << 29) + 1,
+              500000000, 536870911, 536870912, 600000000, 900000000, 999999998, 999999999, 1000000000]
+
+
+def edge_table_config(k):
+    """deterministic tables: two or three registered operators at adjacent / extreme precedences, every associativity pair"""
+    m = Model()
+    i = k % (len(EDGE_PRECS) - 1)
+    p1, p2 = EDGE_PRECS[i], EDGE_PRECS[i + 1]
+    a1 = "LEFT" if (k // len(EDGE_PRECS)) % 2 == 0 else "RIGHT"
+    a2 = "LEFT" if (k // (2 * len(EDGE_PRECS))) % 2 == 0 else "RIGHT"
+    specs = [("lo", p1, a1), ("hi", p2, a2), ("mid", (p1 + p2) // 2 if p2 - p1 > 1 else max(1, p1 - 1), a1)]
+    steps = []
+    for j, (nm, prec, assoc) in enumerate(specs):
+        for k2, v in m.tab.infix.items():
+            if v[0] == prec:
+                assoc = v[1]
+        m.tab.infix[nm] = (prec, assoc, "CALC")
+        steps.append({"op": "reg_infix", "name": nm, "prec": prec, "type": "CALC", "assoc": assoc, "beh": {"id": 300 + j, "ret": "tag"}})
+    ops = ["lo", "hi", "mid", "+", "*", "=", "in", "||"]
+    texts = []
+    import itertools as it
+    for a, b in it.product(ops, repeat=2):
+        texts.append("a %s b %s c" % (a, b))
+    for a, b, c in it.product(ops[:5], repeat=3):
+        texts.append("a %s b %s c %s d" % (a, b, c))
+    return steps, m.tab, texts
+
+
 def big_table_config(rnd):
     m = Model()
     names = ["w%d" % i for i in range(130)] + ["f%dx" % i for i in range(10)]
@@ -301,7 +330,12 @@ def run_shard(desc):
                     part["violations"].append({"sig": [st, evalcheck.top_op(t).split(" ")[0], first], "what": "after registrations [%s] `%s` (context: %s): %s" % ("; ".join(regs), text, json.dumps(steps[i - 1].get("fns") or steps[i - 1].get("vars")), detail),
                                                "replay": {"steps": steps[: i + 1]}})
         else:
-            regs, tab, texts = table_config(rnd) if not (si == 0 and h == 0) else big_table_config(rnd)
+            if kind == "edgetable":
+                regs, tab, texts = edge_table_config(si * n + h)
+            elif si == 0 and h == 0:
+                regs, tab, texts = big_table_config(rnd)
+            else:
+                regs, tab, texts = table_config(rnd)
             todo = []
             for s in texts:
                 try:
@@ -350,6 +384,7 @@ def run(rep, tier):
     nt = 160 if tier == "quick" else 3200
     shards = [("hist", i, nh // 32, "release" if i % 2 else "verifdbg") for i in range(32)]
     shards += [("table", i, nt // 32, "release" if i % 2 else "verifdbg") for i in range(32)]
+    shards += [("edgetable", i, 8, "release" if i % 2 else "verifdbg") for i in range(16)]  # 128 deterministic edge tables
     shards += [("racereg", i, 10 if tier == "quick" else 100, "release" if i % 2 else "verifdbg") for i in range(4)]
     for part in common.pmap(run_shard, shards):
         rep.merge(part)
